@@ -108,6 +108,8 @@ Judge(e, tr) ==
          \cup Fail(ProjOK(tr, e[10], A \ B), "projection.subtract_projection", "none")
          \cup Fail(ProjOK(tr, e[11], A \cap B), "projection.intersect", "none")
          \cup Fail(ProjOK(tr, e[12], A \ B), "projection.subtract_schema", "none")
+         \* intersecting with the same operand under foreign field ids / nullability keeps this schema's fields
+         \cup Fail(e[13] = e[5], "schema.intersection.foreign-operand", cls)
     [] k = "roundtrip" ->
          LET A == SeqSet(e[3]) ar == e[4] pb == e[5] IN
          \* Arrow carries no field ids: the attributes and the nesting survive, ids are re-assigned in pre-order
